@@ -172,12 +172,111 @@ theorem variantLists_spec : ∀ {s : Str}, Iupac s →
         simp only [Reads, List.forall₂_cons] at *
         rw [hmem x, hw w]
 
-/-- Expansion never fails on the 15 codes, returns every reading, nothing else, each once. -/
-theorem variants_exact {s : Str} (h : Iupac s) :
+/-- the expansion table lists as many bases as the code stands for -/
+theorem table_iupac_len : ∀ c ∈ letters, (iupacLookup c).map List.length = some (basesOf c).length := by decide
+
+/-- product of a list of numbers -/
+def prodR : List Nat → Nat
+  | [] => 1
+  | n :: ns => n * prodR ns
+
+theorem foldl_mul_eq (ns : List Nat) (a : Nat) : ns.foldl (· * ·) a = a * prodR ns := by
+  induction ns generalizing a with
+  | nil => simp [prodR]
+  | cons n ns ih => simp [List.foldl_cons, ih, prodR, Nat.mul_assoc]
+
+theorem readingCount_eq (s : Str) : readingCount s = prodR (s.map fun c => (basesOf c).length) := by
+  simp [readingCount, foldl_mul_eq]
+
+theorem prodR_pos {ns : List Nat} (h : ∀ n ∈ ns, 0 < n) : 0 < prodR ns := by
+  induction ns with
+  | nil => simp [prodR]
+  | cons n ns ih =>
+    simp only [prodR]
+    exact Nat.mul_pos (h n (by simp)) (ih (fun m hm => h m (by simp [hm])))
+
+/-- the overflow guard passes exactly when the number of variants fits: `n · Π|lᵢ| ≤ MaxInt32` -/
+theorem countGuard_iff : ∀ (ls : List (List Char)) (n : Nat), (∀ l ∈ ls, 0 < l.length) → n ≤ maxInt32 →
+    (countGuard ls n = true ↔ n * prodR (ls.map List.length) ≤ maxInt32)
+  | [], n, _, hn => by simp [countGuard, prodR, hn]
+  | l :: ls, n, h, hn => by
+    have hl : 0 < l.length := h l (by simp)
+    have hrest : 0 < prodR (ls.map List.length) :=
+      prodR_pos (fun m hm => by
+        simp only [List.mem_map] at hm
+        obtain ⟨x, hx, rfl⟩ := hm
+        exact h x (by simp [hx]))
+    simp only [countGuard, List.map_cons, prodR]
+    by_cases hgt : n > maxInt32 / l.length
+    · simp only [hgt, if_true]
+      constructor
+      · intro hf; exact absurd hf (by simp)
+      · intro hle
+        exfalso
+        have h1 : maxInt32 < n * l.length := by
+          have := (Nat.div_lt_iff_lt_mul hl).1 hgt
+          exact this
+        have h2 : n * l.length ≤ n * (l.length * prodR (ls.map List.length)) := by
+          apply Nat.mul_le_mul_left
+          exact Nat.le_mul_of_pos_right _ hrest
+        omega
+    · simp only [hgt, if_false]
+      have hle : n * l.length ≤ maxInt32 := by
+        have : n ≤ maxInt32 / l.length := Nat.le_of_not_gt hgt
+        exact (Nat.le_div_iff_mul_le hl).1 this
+      rw [countGuard_iff ls (n * l.length) (fun x hx => h x (by simp [hx])) hle, Nat.mul_assoc]
+
+/-- the per-letter lists have the sizes of the code sets -/
+theorem variantLists_len : ∀ {s : Str} {ls : List (List Char)}, Iupac s → variantLists s = some ls →
+    ls.map List.length = s.map (fun c => (basesOf c).length)
+  | [], ls, _, h => by simp [variantLists] at h; subst h; rfl
+  | c :: cs, ls, hI, h => by
+    have hc := table_iupac_len c (hI c (by simp))
+    simp only [variantLists] at h
+    split at h
+    · rename_i l ls' hl hls'
+      cases h
+      have ih := variantLists_len (s := cs) (fun x hx => hI x (by simp [hx])) hls'
+      simp only [hl, Option.map_some, Option.some.injEq] at hc
+      simp [hc, ih]
+    · exact absurd h (by simp)
+
+theorem basesOf_pos : ∀ c ∈ letters, 0 < (basesOf c).length := by decide
+
+theorem variantLists_pos {s : Str} {ls : List (List Char)} (hI : Iupac s) (h : variantLists s = some ls) :
+    ∀ l ∈ ls, 0 < l.length := by
+  have hlen := variantLists_len hI h
+  intro l hl
+  have : l.length ∈ ls.map List.length := List.mem_map_of_mem hl
+  rw [hlen, List.mem_map] at this
+  obtain ⟨c, hc, hcl⟩ := this
+  rw [← hcl]
+  exact basesOf_pos c (hI c hc)
+
+/-- Expansion returns every reading, nothing else, each once — whenever the number of readings can be
+enumerated (at most MaxInt32, the bound the code enforces since fce67c5). -/
+theorem variants_exact {s : Str} (h : Iupac s) (hc : readingCount s ≤ maxInt32) :
     ∃ vs, allVariants s = some vs ∧ vs.Nodup ∧ ∀ w, w ∈ vs ↔ Reads s w := by
   obtain ⟨ls, hls, hnd, hw⟩ := variantLists_spec h
-  refine ⟨cart ls, by simp [allVariants, hls], cart_nodup ls hnd, fun w => ?_⟩
+  have hg : countGuard ls 1 = true := by
+    rw [countGuard_iff ls 1 (variantLists_pos h hls) (by decide), Nat.one_mul, variantLists_len h hls,
+      ← readingCount_eq]
+    exact hc
+  refine ⟨cart ls, by simp [allVariants, hls, hg], cart_nodup ls hnd, fun w => ?_⟩
   rw [mem_cart, hw]
+
+/-- More readings than can be enumerated: an error, not an empty or partial answer. -/
+theorem variants_too_many {s : Str} (h : Iupac s) (hc : maxInt32 < readingCount s) :
+    allVariants s = none := by
+  obtain ⟨ls, hls, _, _⟩ := variantLists_spec h
+  have hg : countGuard ls 1 = false := by
+    cases hcg : countGuard ls 1 with
+    | false => rfl
+    | true =>
+      rw [countGuard_iff ls 1 (variantLists_pos h hls) (by decide), Nat.one_mul, variantLists_len h hls,
+        ← readingCount_eq] at hcg
+      omega
+  simp [allVariants, hls, hg]
 
 def acgt : List Char := ['A', 'C', 'G', 'T']
 
@@ -202,9 +301,15 @@ theorem reads_concrete {s w : Str} (hr : Reads s w) : ∀ x ∈ w, x ∈ acgt :=
     · exact ih x hx'
 
 /-- every output is a concrete A/C/G/T string of the input's length -/
+theorem allVariants_some_count {s : Str} (h : Iupac s) {vs : List Str} (hv : allVariants s = some vs) :
+    readingCount s ≤ maxInt32 := by
+  rcases Nat.lt_or_ge maxInt32 (readingCount s) with hgt | hle
+  · rw [variants_too_many h hgt] at hv; exact absurd hv (by simp)
+  · exact hle
+
 theorem variants_concrete {s : Str} (h : Iupac s) {vs : List Str} (hv : allVariants s = some vs) :
     ∀ w ∈ vs, w.length = s.length ∧ ∀ x ∈ w, x ∈ acgt := by
-  obtain ⟨vs', hvs', _, hmem⟩ := variants_exact h
+  obtain ⟨vs', hvs', _, hmem⟩ := variants_exact h (allVariants_some_count h hv)
   rw [hv] at hvs'; cases hvs'
   intro w hw
   have hr := (hmem w).1 hw
@@ -247,8 +352,8 @@ reverse complements of the variants of `s` (as lists without repetition, up to o
 theorem variants_rc {s : Str} (h : Iupac s) {vs vs' : List Str}
     (hv : allVariants s = some vs) (hv' : allVariants (revComp s) = some vs') :
     vs'.Perm (vs.map revComp) := by
-  obtain ⟨v1, h1, nd1, m1⟩ := variants_exact h
-  obtain ⟨v2, h2, nd2, m2⟩ := variants_exact (rc_iupac h)
+  obtain ⟨v1, h1, nd1, m1⟩ := variants_exact h (allVariants_some_count h hv)
+  obtain ⟨v2, h2, nd2, m2⟩ := variants_exact (rc_iupac h) (allVariants_some_count (rc_iupac h) hv')
   rw [hv] at h1; cases h1
   rw [hv'] at h2; cases h2
   have conc := fun w hw => (variants_concrete h hv w hw).2
@@ -275,5 +380,8 @@ example : revComp "AGRn".toList = "nYCT".toList := by decide
 example : allVariants "RY".toList = some ["GT".toList, "GC".toList, "AT".toList, "AC".toList] := by decide
 example : Reads "RY".toList "AC".toList := by
   unfold Reads; decide
+
+example : maxInt32 < readingCount (List.replicate 16 'N') := by decide
+example : readingCount "NNKRY".toList ≤ maxInt32 := by decide
 
 end PolyVerif.Props.C11
